@@ -12,7 +12,7 @@ import re
 from gen import irgen
 from vlib import core, passlib
 
-COQ_TARGETS = ["Props/C06.vo"]
+COQ_TARGETS = ["Props/C06.vo", "Model/Spec06.vo"]
 PROPS = "Props/C06.v"
 TRUSTED = [
     "normal-form predicates coq/Model/NF.v (hint payloads are excluded: they keep the original union by design)",
